@@ -722,6 +722,17 @@ func writeScratch(cs Case) (root string, cleanup func(), skip string) {
 }
 
 func run(cs Case) ev.Outcome {
+	// The symbol table behind intern() lives in the Params object and is
+	// meant to persist between compilations that share it: an earlier
+	// program that interns other symbols changes the IDs by design.  Only
+	// the measured program itself may intern on the shared Params.
+	if strings.Contains(mainSource(cs), "intern(") {
+		for _, h := range cs.History {
+			if h.Share && h.Prog != -1 && strings.Contains(histSource(cs, h), "intern(") {
+				return ev.Outcome{Skip: "an earlier compilation on the shared Params interns symbols (symbol IDs are state by design)"}
+			}
+		}
+	}
 	if cs.Reps < 1 {
 		cs.Reps = 1
 	}
